@@ -72,8 +72,17 @@ def descriptor(f, sp, root):
     return d
 
 
+def _role(f, api, which):
+    """Short name (after `ActorRef::<T>::`) of the private primitive behind a public blocking function, by role."""
+    import anchors
+    d = (anchors.blocking_roles(f).get(api) or {}).get(which)
+    return d[len(A):] if d and d.startswith(A) else None
+
+
 def siblings(run, f, sp):
-    for a, b in (("tell", "blocking_tell_no_timeout"), ("ask", "blocking_ask_no_timeout")):
+    for a, b in (("tell", _role(f, "blocking_tell", "nt")), ("ask", _role(f, "blocking_ask", "nt"))):
+        if not run.require(b is not None, "O17.1", "sibling-anchors:%s" % a, "cannot identify the private no-timeout primitive behind blocking_%s" % a, "found"):
+            continue
         da, db = descriptor(f, sp, A + a), descriptor(f, sp, A + b)
         if not run.require(da is not None and db is not None, "O17.1", "sibling-anchors:%s" % a, "cannot find the primitive bodies %s / %s" % (a, b), "found"):
             continue
@@ -87,7 +96,10 @@ def siblings(run, f, sp):
 
 
 def dispatch(run, f):
-    for api, nt, wt in (("blocking_tell", "blocking_tell_no_timeout", "blocking_tell_with_timeout_impl"), ("blocking_ask", "blocking_ask_no_timeout", "blocking_ask_with_timeout_impl")):
+    for api in ("blocking_tell", "blocking_ask"):
+        nt, wt = _role(f, api, "nt"), _role(f, api, "wt")
+        if not run.require(nt is not None and wt is not None, "O17.2", "dispatch-body:%s" % api, "cannot identify the two private primitives (no timeout / timeout) called by %s" % api, "found"):
+            continue
         # the logic body (with `tracing` the fn is wrapped: look for the body that calls the callees)
         cands = [b for b in f.family(A + api) if any(callee(k.term) in (A + nt, A + wt) for k in live_calls(b))]
         if not run.require(len(cands) == 1, "O17.2", "dispatch-body:%s" % api, "cannot find the dispatching body of %s" % api, "found"):
